@@ -6,6 +6,8 @@ CONSTANTS Variant = "tminus1"
  MCVs = {1}
  PolyMode = "few"
  MaxRedel = 0
+ MaxFault = 0
+ FaultNodes = {1, 2, 3}
  OrderMode = "canon"
 INVARIANTS TypeOK CountsDistinct NoFailure ThresholdIsT Agreement KeyedByShareIdx OwnShareMatches GroupKeyIsSum AnyTRecover AnyTSign BelowThresholdSafe
 PROPERTIES RedeliveryNoEffect BarrierComplete
